@@ -259,6 +259,47 @@ theorem cursors_follow {β : Type} (pg : List String → List β) (script : List
           exact ⟨h1, vs', by simpa using h2⟩
       · simp [scanFrom, hcont]
 
+/-! ### re-iterating the same Scanner -/
+
+/-- every iteration over the same Scanner is a function of the page script only: whatever state
+    earlier iterations left behind (complete, stopped early by the consumer at any item, or ended
+    by a failed page), the k-th iteration shows exactly what a fresh Scanner would show -/
+theorem iterations_independent (st : St) (script : List Resp) (reqs : List Req) :
+    (runSeq st script reqs).1 = reqs.map fun r => (runReq ⟨none⟩ script r).1 := by
+  induction reqs generalizing st with
+  | nil => rfl
+  | cons r rs ih =>
+    simp only [runSeq, List.map_cons, ih]
+    cases r <;> rfl
+
+/-- in particular every iteration equals the specification started at cursor 0 -/
+theorem iterations_eq_spec (st : St) (script : List Resp) (reqs : List Req) :
+    (runSeq st script reqs).1 = reqs.map fun r => match r with
+      | .iter stop => Res.items (specIter script stop)
+      | .iter2 stop => Res.pairs (specIter2 script stop) := by
+  rw [iterations_independent]
+  apply List.map_congr_left
+  intro r _
+  cases r with
+  | iter stop => simp only [runReq, iter_eq_spec]
+  | iter2 stop => simp only [runReq, iter2_eq_spec]
+
+/-- every iteration's first request carries cursor 0 -/
+theorem every_iteration_starts_at_cursor0 (st : St) (script : List Resp) (r : Req) :
+    (match (runReq st script r).1 with
+      | .items o => o.cursors[0]?
+      | .pairs o => o.cursors[0]?) = some 0 := by
+  cases r with
+  | iter stop => exact (cursors_follow id script 0 stop).1
+  | iter2 stop => exact (cursors_follow pairs script 0 stop).1
+
+/-- `Err()` after a sequence of iterations is the error of the last one only -/
+theorem err_is_last_iteration (st : St) (script : List Resp) (reqs : List Req) (r : Req) :
+    (runSeq st script (reqs ++ [r])).2 = (runReq ⟨none⟩ script r).2 := by
+  induction reqs generalizing st with
+  | nil => cases r <;> rfl
+  | cons q qs ih => simp only [List.cons_append, runSeq, ih]
+
 /-! ### non-vacuity -/
 
 example : iter [.page 5 ["a", "b"], .page 0 ["c"], .page 9 ["x"]] none = ⟨["a", "b", "c"], [0, 5], none⟩ := by decide
@@ -266,5 +307,9 @@ example : iter [.page 5 ["a", "b"], .page 0 ["c"]] (some 1) = ⟨["a", "b"], [0]
 example : iter [.page 5 ["a", "b"], .page 0 ["c"]] (some 2) = ⟨["a", "b", "c"], [0, 5], none⟩ := by decide
 example : iter [.page 5 ["a"], .err "boom", .page 0 ["c"]] none = ⟨["a"], [0, 5], some "boom"⟩ := by decide
 example : iter2 [.page 5 ["a", "b", "c"], .page 0 ["d", "e"]] none = ⟨[("a", "b"), ("d", "e")], [0, 5], none⟩ := by decide
+example : (runSeq ⟨none⟩ [.page 5 ["a", "b"], .page 0 ["c"]] [.iter (some 0), .iter none]).1
+    = [.items ⟨["a"], [0], none⟩, .items ⟨["a", "b", "c"], [0, 5], none⟩] := by decide
+example : (runSeq ⟨none⟩ [.page 5 ["a"], .err "boom"] [.iter none, .iter2 none]).1
+    = [.items ⟨["a"], [0, 5], some "boom"⟩, .pairs ⟨[], [0, 5], some "boom"⟩] := by decide
 
 end Rv.C46
